@@ -86,6 +86,17 @@ def get_tags(*tags):
         return TagSet(tags)
 
 
+def parse_tags(annotation):
+    """Build a Tag or TagSet from a string annotation such as ``"@A & @B"``.
+
+    Anything else is returned unchanged.
+    """
+    if isinstance(annotation, str) and annotation.startswith("@"):
+        names = [part.strip() for part in annotation.split("&")]
+        return get_tags(*[name[1:] for name in names if name.startswith("@")])
+    return annotation
+
+
 tag = _TagFactory()
 
 enter_tag = tag.enter
